@@ -22,6 +22,7 @@ import PyomaVerif.Ops.C07All
 import PyomaVerif.Ops.C09Run
 import PyomaVerif.Ops.Poles
 import PyomaVerif.Ops.C17Table
+import PyomaVerif.Ops.C08
 /-! Line-protocol driver: one JSON object per line in, one JSON value per line out. -/
 open Lean PV PV.Codec
 
@@ -31,6 +32,7 @@ def allOps : List (String × (Json → Except String Json)) :=
   ++ PV.Ops.C09Run.ops
   ++ PV.Ops.Poles.ops
   ++ PV.Ops.C17Table.ops
+  ++ PV.Ops.C08.ops
 
 def handle (line : String) : String :=
   match Json.parse line with
